@@ -221,6 +221,27 @@ def run_case(case, seed):
                     fails.append(fail("contract_raised", f"{cls}: {back}", cls=cls, **tags))
                 elif G.from_quat(back).tobytes() != np.ascontiguousarray(A).tobytes():
                     fails.append(fail("round_trip_bitwise", f"class {cls}: real_contract(real_expand(A)) is not bit-identical to A", cls=cls, **tags))
+        if emb in ("real_expand", "Realp"):
+            # non-finite components are values too: the representation is pure placement (with sign), so +-inf and nan land in exactly the
+            # 4 slots of their component and nowhere else (a representation computed as a sum of products with 0/1 matrices turns them
+            # into nan everywhere)
+            An = fill.quat_int(m, n, -3, 3).astype(float)
+            An[0, 0, 2] = np.inf
+            An[m - 1, n - 1, 0] = -np.inf
+            An[0, n - 1, 3] = np.nan
+            ok, Fn = call(f, An) if emb == "Realp" else call(u.real_expand, G.to_quat(An))
+            evals += 1
+            w_, x_, y_, z_ = (An[..., t] for t in range(4))
+            blocks = [[w_, -x_, -y_, -z_], [x_, w_, -z_, y_], [y_, z_, w_, -x_], [z_, -y_, x_, w_]]
+            if emb == "Realp":
+                expn = np.block(blocks)
+            else:
+                expn = np.zeros((4 * m, 4 * n))
+                for a_ in range(4):
+                    for b_ in range(4):
+                        expn[a_::4, b_::4] = blocks[a_][b_]
+            if not ok or np.asarray(Fn).shape != expn.shape or not np.array_equal(np.asarray(Fn), expn, equal_nan=True):
+                fails.append(fail("layout", "non-finite components (inf, -inf, nan) are not placed like every other value", cls="nonfinite", **tags))
         if emb in ("real_expand", "cadj", "Realp"):
             # every "unusual but legal" variant: the embedding is pure data movement, so it equals the oracle's exactly, the round trip is
             # bitwise and the norm factor is exact on these dyadic inputs
